@@ -92,7 +92,8 @@ class C04(common.Check):
         cat = blobs.catalogue(tier)
         out = []
         rng = prng.stream(seed, "C04")
-        full = range(len(cat)) if tier == "thorough" else [i for i in range(len(cat)) if i % 5 == (seed % 5)]
+        # quick: a fixed spread (nonce env, P256 trailing, P384 trailing, SHA512 nonce trailing, library-made env and trailing), rotated by the seed
+        full = range(len(cat)) if tier == "thorough" else [(i + 8 * (seed % 4)) % 32 if i < 32 else i for i in (0, 5, 7, 25, 32, 39)]
         for bi in full:
             n = len(cat[bi].blob)
             for bit in range(n * 8):
